@@ -533,9 +533,26 @@ fn doc_expect(c: &Case, mock0: &Mock) -> Result<DocState, &'static str> {
     // "start with its STACK CFI INIT and then apply all the applicable STACK CFI diffs in order"
     let mut app: Vec<&(u64, Vec<u8>)> = c.adds.iter().filter(|(x, _)| *x <= a).collect();
     app.sort_by_key(|(x, _)| *x);
-    for w in app.windows(2) {
-        if w[0].0 == w[1].0 && w[0].1 != w[1].1 {
-            return Err("two-deltas-one-address");
+    // Several delta records at ONE address: the documentation says "apply all the applicable STACK CFI
+    // diffs in order" but gives no order among records of one address. Whatever that order is, every
+    // one of them is applied: a malformed one makes the whole STACK CFI malformed, and records that
+    // give rules to different registers commute. Only when two of them give DIFFERENT rules to the
+    // same register does the result depend on the undocumented order - the oracle abstains there.
+    for (i, x) in app.iter().enumerate() {
+        for y in app.iter().skip(i + 1) {
+            if x.0 != y.0 || x.1 == y.1 {
+                continue;
+            }
+            let (Ok(lx), Ok(ly)) = (std::str::from_utf8(&x.1), std::str::from_utf8(&y.1)) else { return Err("utf8") };
+            let (mut rx, mut ry) = (vec![], vec![]);
+            match (doc_parse_line(lx, &mut rx), doc_parse_line(ly, &mut ry)) {
+                (Err(()), _) | (_, Err(())) => return Err("undocumented-label"),
+                (Ok(None), _) | (_, Ok(None)) => continue, // malformed either way round
+                _ => {}
+            }
+            if rx.iter().any(|(k, e)| ry.iter().any(|(k2, e2)| k == k2 && e != e2)) {
+                return Err("two-deltas-one-address-same-register");
+            }
         }
     }
     let mut lines: Vec<&str> = vec![std::str::from_utf8(&c.init).map_err(|_| "utf8")?];
@@ -1038,6 +1055,71 @@ impl Cfi {
         render(&c)
     }
 
+    /// expressions that need MANY pending operands (`v1 v2 .. vk op .. op`: k values on the stack at
+    /// once) or MANY tokens (`v1 v2 op v3 op ..`): the documented language bounds neither
+    fn gen_deep_expr(&self, rng: &mut Rng) -> String {
+        let mut c = walker64(rng);
+        c.base = 0x4000;
+        c.init_addr = 0x20;
+        c.init_size = 0x10;
+        c.instr = 0x4020 + rng.below(0x10);
+        const KS: &[u64] = &[2, 3, 5, 7, 8, 9, 10, 12, 15, 16, 17, 24, 31, 32, 33, 48, 63, 64, 65, 100, 127, 128, 129, 200, 255, 256, 257, 400];
+        let k = *rng.pick(KS) as usize;
+        let val = |rng: &mut Rng| -> String {
+            match rng.below(6) {
+                0 => "$rsp".into(),
+                1 => ".cfa".into(),
+                _ => rng.pick(&["1", "2", "3", "4", "8", "16", "-1", "0", "7"]).to_string(),
+            }
+        };
+        let op = |rng: &mut Rng| rng.pick(&["+", "+", "+", "-", "*"]).to_string();
+        let mut e: Vec<String> = vec![];
+        match rng.below(3) {
+            // k operands pending at once
+            0 => {
+                for _ in 0..k {
+                    e.push(val(rng));
+                }
+                for _ in 1..k {
+                    e.push(op(rng));
+                }
+            }
+            // a long left-leaning chain: two pending operands, 2k-1 tokens
+            1 => {
+                e.push(val(rng));
+                for _ in 1..k {
+                    e.push(val(rng));
+                    e.push(op(rng));
+                }
+            }
+            // blocks of pending operands, each reduced before the next starts
+            _ => {
+                let b = 1 + rng.below(12) as usize;
+                e.push(val(rng));
+                let mut left = k;
+                while left > 0 {
+                    let n = b.min(left);
+                    for _ in 0..n {
+                        e.push(val(rng));
+                    }
+                    for _ in 0..n {
+                        e.push(op(rng));
+                    }
+                    left -= n;
+                }
+            }
+        }
+        let e = e.join(" ");
+        c.init = match rng.below(4) {
+            0 => format!(".cfa: {} .ra: .cfa 8 - ^", e.replace(".cfa", "$rsp")),
+            1 => format!(".cfa: $rsp 8 + .ra: {e}"),
+            2 => format!(".cfa: $rsp 8 + .ra: .cfa 8 - ^ $rbx: {e}"),
+            _ => format!(".cfa: $rsp 8 + .ra: .cfa 8 - ^ $rbx: {e} $r12: $rbx"),
+        }
+        .into_bytes();
+        render(&c)
+    }
+
     /// a long single expression (beyond the exhaustive bound)
     fn gen_long_expr(&self, rng: &mut Rng) -> String {
         let mut c = if rng.chance(1, 5) { walker32(rng) } else { walker64(rng) };
@@ -1102,7 +1184,9 @@ impl Engine for Cfi {
             emit(gen_stack(rng));
         }
         for i in 0..nrand {
-            if i % 3 == 0 {
+            if i % 40 == 1 {
+                emit(self.gen_deep_expr(rng));
+            } else if i % 3 == 0 {
                 emit(self.gen_long_expr(rng));
             } else {
                 emit(self.gen_random(rng));
